@@ -4,6 +4,7 @@ package multi
 
 import (
 	"math"
+	"sync"
 	"time"
 
 	tally "github.com/uber-go/tally/v4"
@@ -259,3 +260,51 @@ func VerifC19Plain()   { c19Plain(3, 2) }
 func VerifC19Cached()  { c19Cached(3) }
 func VerifC19Plain5()  { c19Plain(5, 3) }
 func VerifC19Cached5() { c19Cached(5) }
+
+// vSlowChild: a child whose Flush takes a lock (a scheduling point), counting flushes.
+type vSlowChild struct {
+	mu      sync.Mutex
+	flushes int
+}
+
+func (c *vSlowChild) ReportCounter(string, map[string]string, int64)       {}
+func (c *vSlowChild) ReportGauge(string, map[string]string, float64)       {}
+func (c *vSlowChild) ReportTimer(string, map[string]string, time.Duration) {}
+func (c *vSlowChild) ReportHistogramValueSamples(string, map[string]string, tally.Buckets, float64, float64, int64) {
+}
+func (c *vSlowChild) ReportHistogramDurationSamples(string, map[string]string, tally.Buckets, time.Duration, time.Duration, int64) {
+}
+func (c *vSlowChild) AllocateCounter(string, map[string]string) tally.CachedCount { return nil }
+func (c *vSlowChild) AllocateGauge(string, map[string]string) tally.CachedGauge   { return nil }
+func (c *vSlowChild) AllocateTimer(string, map[string]string) tally.CachedTimer   { return nil }
+func (c *vSlowChild) AllocateHistogram(string, map[string]string, tally.Buckets) tally.CachedHistogram {
+	return nil
+}
+func (c *vSlowChild) Capabilities() tally.Capabilities { return vCaps{true, true} }
+func (c *vSlowChild) Flush() {
+	c.mu.Lock()
+	c.flushes++
+	c.mu.Unlock()
+}
+
+// VerifC19ConcurrentFlush: two goroutines flush the multi reporter at the same time; every
+// flush call must reach every child (every schedule with at most 2 preemptions).
+func VerifC19ConcurrentFlush() {
+	a, b := &vSlowChild{}, &vSlowChild{}
+	cached := verifrt.Choose("cached", 2) == 1
+	var flush func()
+	if cached {
+		flush = NewMultiCachedReporter(a, b).Flush
+	} else {
+		flush = NewMultiReporter(a, b).Flush
+	}
+	var wg sync.WaitGroup
+	verifrt.Explore(2)
+	wg.Add(2)
+	go func() { defer wg.Done(); flush() }()
+	go func() { defer wg.Done(); flush() }()
+	wg.Wait()
+	verifrt.StopExplore()
+	verifrt.Assert("c19.concurrent-flush.every-call-reaches-every-child", a.flushes == 2 && b.flushes == 2)
+	verifrt.Reach("c19-concurrent-flush")
+}
